@@ -468,6 +468,41 @@ func runC17(c *mon.Ctx) {
 		k.Class(fmt.Sprintf("source-mode-%d", cf.mode))
 	})
 
+	// positions far beyond the end of the input: every distance from the
+	// window start that is special in 31, 32 or 33 bits, after a window
+	// was filled at a boundary offset
+	farBases := []int64{1<<31 - 1, 1 << 31, 1<<32 - 1, 1 << 32, 1 << 33, 3 << 32, 1 << 40, 1 << 62}
+	farDeltas := []int64{0, 1, 2, 16, 1023, 1024, 1025}
+	warm := []int64{0, 1, 1023, 1024, 2048}
+	c.Stratum("far-seeks", len(cfgs)*len(warm), func(k *mon.Case) {
+		cf := cfgs[k.Index/len(warm)]
+		w := warm[k.Index%len(warm)]
+		data := datas[cf.n]
+		for _, base := range farBases {
+			for _, d := range farDeltas {
+				for _, rel := range []bool{false, true} {
+					for _, after := range []c17op{{2, 0}, {3, 0}, {5, 0}, {6, 0}, {7, 1}, {7, 1024}, {8, 1}, {8, 3000}, {1, 5}} {
+						s := c17new(k, data, cf.mode)
+						target := base + d
+						if rel {
+							target += w // the same distance measured from the window start
+						}
+						seq := []c17op{{0, w}, {2, 0}, {0, target}, {9, 0}, after, {9, 0}, {0, w}, {2, 0}}
+						s.desc = func() string { return fmt.Sprintf("len=%d source-mode=%d ops=%v", cf.n, cf.mode, seq) }
+						for _, o := range seq {
+							if !s.step(o) {
+								return
+							}
+						}
+						k.DistinctCount(1)
+					}
+				}
+			}
+		}
+		k.Class("far-seek")
+	})
+	c.Require("far-seek")
+
 	// random part
 	c.Stratum("random", c.N(4000, 200000), func(k *mon.Case) {
 		r := k.Rng
@@ -499,6 +534,10 @@ func runC17(c *mon.Ctx) {
 				o = c17op{0, int64(r.IntN(n + 2000))}
 			case 1:
 				o = c17op{0, max(0, s.cur+int64(r.IntN(2100))-1050)}
+				if r.IntN(10) == 0 {
+					// the same position seen through 31..34 bit arithmetic
+					o.arg = min(s.cur, 1<<31) + int64(r.IntN(1100)) + int64(1+r.IntN(4))<<uint(31+r.IntN(3))
+				}
 			case 2:
 				o = c17op{1, int64(r.IntN(1500))}
 			case 3:
